@@ -1182,3 +1182,49 @@ def m_resume_unwind(P, c, args, dt):
 @model('std::any::Any::type_id', 'std::any::type_name')
 def m_any(P, c, args, dt):
     raise Unsupported('Any')
+
+
+@model('std::bool::<impl bool>::then')
+def m_bool_then(P, c, args, dt):
+    if P.branch(args[0]):
+        return some(call_closure(P, args[1]))
+    return none()
+
+
+@model('std::bool::<impl bool>::then_some')
+def m_bool_then_some(P, c, args, dt):
+    if P.branch(args[0]):
+        return some(args[1])
+    return none()
+
+
+@model('std::ops::RangeInclusive::new')
+def m_range_inclusive_new(P, c, args, dt):
+    return Agg('std::ops::RangeInclusive', [args[0], args[1], FALSE])
+
+
+@model('std::ops::RangeInclusive::start', 'std::ops::RangeInclusive::end')
+def m_range_inclusive_get(P, c, args, dt):
+    r = tgt(args[0])
+    return Ref(r, 0 if c.method == 'start' else 1)
+
+
+@model('std::ops::RangeInclusive::contains', 'std::ops::Range::contains', 'std::ops::RangeBounds::contains')
+def m_range_contains(P, c, args, dt):
+    r = tgt(args[0])
+    x = tgt(args[1])
+    last = r.ty.rsplit('::', 1)[-1]
+    lo = binop('Ge', x, r.f[0])
+    if last == 'RangeInclusive':
+        return b_and(lo, binop('Le', x, r.f[1]))
+    if last == 'Range':
+        return b_and(lo, binop('Lt', x, r.f[1]))
+    raise Unsupported('contains on %s' % r.ty)
+
+
+@model('std::ops::Range::is_empty', 'std::ops::RangeInclusive::is_empty')
+def m_range_is_empty(P, c, args, dt):
+    r = tgt(args[0])
+    if r.ty.endswith('RangeInclusive'):
+        return binop('Gt', r.f[0], r.f[1])
+    return binop('Ge', r.f[0], r.f[1])
